@@ -219,6 +219,39 @@ def gen_case(rng, maxc=12, nfrag=None):
     return {'contigs': contigs, 'records': recs, 'name_form': name_form}
 
 
+def ejection_case(rng):
+    """a library large enough for the molecule buffer to be pruned during a run with DEFAULT options (MoleculeIterator
+    checks for ejectable molecules every 10000 fragments; a molecule leaves the buffer 5000 bp behind its span): about
+    10400 valid single-end fragments, 2-3 molecules of different length and UMI per cut site, cut sites 7 bp apart, so
+    that at the moment of the check some pools hold molecules on both sides of the ejection margin, in both orders"""
+    contigs = [['chrE', 150000], ['chrS', 900]]
+    bc = {'LIBA_1': 'ACGTACGT', 'LIBA_2': 'TTGCATGC'}
+    recs = []
+    fid = 0
+    site = 2000
+    while len(recs) < 10400:
+        cell = rng.choice(sorted(bc))
+        umis = rng.sample(['AAA', 'CCC', 'GGG', 'TTT', 'ACG', 'TGC'], rng.choice([2, 2, 3]))
+        for u in umis:
+            for _dup in range(rng.choice([1, 1, 1, 2])):
+                fid += 1
+                L = rng.choice([24, 31, 45, 60, 76])
+                tg = {'SM': cell, 'BC': bc[cell], 'RX': u, 'MI': bc[cell] + u, 'LY': 'LIBA', 'Fc': 'HXXFC', 'La': '1'}
+                recs.append({'n': 'NS500:1:HXXFC:1:2101:%d:%d' % (1000 + fid // 9000, 1000 + fid % 9000), 'f': 0, 't': 0, 'p': site,
+                             'q': 60, 'c': '%dM' % L, 's': 'CATG' + rand_seq(rng, L - 4), 'ql': 'J' * L, 'nt': -1, 'np': -1,
+                             'tags': tg, 'kind': 'single'})
+        site += 7
+    name = 'NS500:1:HXXFC:1:2101:9999:9999'
+    tg = {'SM': 'LIBA_1', 'BC': bc['LIBA_1'], 'RX': 'ACG', 'MI': bc['LIBA_1'] + 'ACG', 'LY': 'LIBA', 'Fc': 'HXXFC', 'La': '1'}
+    recs.append({'n': name, 'f': PAIRED | PROPER | MREV | R1, 't': 1, 'p': 100, 'q': 60, 'c': '24M', 's': 'CATG' + rand_seq(rng, 20),
+                 'ql': 'J' * 24, 'nt': 1, 'np': 150, 'tags': dict(tg), 'kind': 'pair'})
+    recs.append({'n': name, 'f': PAIRED | PROPER | REV | R2, 't': 1, 'p': 150, 'q': 60, 'c': '20M', 's': rand_seq(rng, 20),
+                 'ql': 'F' * 20, 'nt': 1, 'np': 100, 'tags': dict(tg), 'kind': 'pair'})
+    for i, r in enumerate(recs):
+        r['tags']['zi'] = i
+    return {'contigs': contigs, 'records': recs, 'name_form': 'tags', 'ejection': True}
+
+
 def layout_cases(kmax):
     """exhaustive small scope for the end-to-end check: every header of 1..kmax contigs over {small, LARGE}, every
     non-empty subset of contigs carrying one proper pair, with / without one unplaced unmapped read"""
@@ -491,6 +524,15 @@ class Prop(fw.PropBase):
                 gone = set(n for n in names if self.rng.random() < 0.3)
                 v1 = [r for r in c['records'] if r['t'] != drop_t and r['n'] not in gone]
                 c['stale'] = {'records': v1}
+        # libraries in which the molecule buffer is pruned during a default-option run (> 10000 fragments)
+        ej = [ejection_case(self.rng) for _ in range(1 if quick else 3)]
+        for c in ej:
+            c['run_specs'] = [{'method': 'nla', 'mode': 'single', 'nr': False},
+                              {'method': 'nla', 'mode': 'multi', 'threads': 2, 'nr': False}]
+            if not quick:
+                c['run_specs'].append({'method': 'chic', 'mode': 'single', 'nr': False})
+            c['runs'] = [spec_args(r) for r in c['run_specs']]
+        self.n_ejection = len(ej)
         lay = layout_cases(2 if quick else 4)
         self.n_layout = len(lay)
         for c in lay:
@@ -532,7 +574,7 @@ class Prop(fw.PropBase):
                               [{'method': m, 'mode': mo, 'threads': 2, 'nr': False} for m in ('nla', 'chic') for mo in ('single', 'multi')])
             c['runs'] = [spec_args(r) for r in c['run_specs']]
             big.append(c)
-        return cases + lay + big
+        return cases + lay + big + ej
 
     def corpus_cases(self):
         d = os.path.join(fw.VERIF, 'corpus', 'C05')
